@@ -659,6 +659,10 @@ func finish(cfg *Config, spec *PropSpec, out *runOutcome, wall time.Duration) in
 	}
 	fmt.Printf("%s tier=%s: %d feasible paths, %d solver queries (%.1fs), %d assertions discharged by the solver, %d folded, %d inconclusive, %d paths not decided, %d native replays; violations=%d known=%d wall=%.1fs\n",
 		spec.ID, cfg.Tier, states, queries, solverT, discharged, folded, incon, undecided, out.totalWit, len(out.violations), len(dedup(out.known)), wall.Seconds())
+	if undecided > 0 || incon > 0 {
+		// not a verdict on those paths: say so where a reader of the output sees it
+		fmt.Printf("NOTE property=%s %d paths not decided (unsupported library call or cut) and %d assertions inconclusive: nothing is claimed for them; reasons are in the evidence file\n", spec.ID, undecided, incon)
+	}
 	if len(out.violations) > 0 {
 		return 1
 	}
